@@ -18,10 +18,10 @@ until the matching END:
 * end of input inside a block is only a warning ("failed to find the end of block"): all
   open blocks are closed without END;
 * `DO <label>`: the line carrying the label ends the block after being added to it; if
-  the enclosing block is a DO with the same label the line is *put back* and is added to
-  that block as well (the real code duplicates the shared terminal statement, which
-  breaks C19 — `Props/One.lean: shared_label_dup_witness`).  The third component of the
-  result says whether this happened;
+  the enclosing block is a DO with the same label the line is *put back* for that block
+  and the inner block ends without holding it (HEAD of the real code; before the fix the
+  line was added to both blocks — `fillLegacy`, `Props/One.lean: legacy_shared_label_dup_witness`).
+  The third component of the result says whether a put-back happened;
 * every block kind accepts only the openers / statement categories of its `get_classes()`.
 No Mathlib.
 -/
@@ -173,8 +173,54 @@ def hit (c : Ctx) (l : Line) : Bool :=
 def shared (c : Ctx) (l : Line) : Bool := hit c l && c.parentDo == c.endlabel
 
 /-- `BeginStatement.fill`: content of the block `c` read from `ls`.
-    Result: content, remaining lines, whether a line was put back. -/
+    Result: content, remaining lines, whether a line was put back.
+
+    `Do.process_subitem` runs first: when the line carries this DO's end label and the
+    enclosing block is a DO with the same end label, the line is put back for the enclosing
+    loop and this block ends WITHOUT holding it (`self.put_item(item); return True`). -/
 def fill : Nat → Ctx → List Line → Except Err (Forest × List Line × Bool)
+  | 0, _, _ => .error .fuel
+  | _+1, _, [] => .ok (.nil, [], false)
+  | f+1, c, l :: ls =>
+    if shared c l then .ok (.nil, l :: ls, true)
+    else
+    let h := hit c l
+    if endValid c l then .ok (.leaf l .nil, ls, false)
+    else
+      match l.body with
+      | .opn k name el =>
+        if allowedOpen c.kind k then
+          match fill f (childCtx c k name el) ls with
+          | .error e => .error e
+          | .ok (kids, rest, s1) =>
+            if h then .ok (.blk l kids .nil, rest, s1)
+            else
+              match fill f c rest with
+              | .error e => .error e
+              | .ok (nx, rest', s2) => .ok (.blk l kids nx, rest', s1 || s2)
+        else .error (.nopattern l.id c.kind)
+      | .ifs =>
+        if allowedIf c.kind then
+          if h then .ok (.if1 l .nil, ls, false)
+          else
+            match fill f c ls with
+            | .error e => .error e
+            | .ok (nx, rest, s2) => .ok (.if1 l nx, rest, s2)
+        else .error (.nopattern l.id c.kind)
+      | .smp cat =>
+        if allowedSimple c.kind cat then
+          if h then .ok (.leaf l .nil, ls, false)
+          else
+            match fill f c ls with
+            | .error e => .error e
+            | .ok (nx, rest, s2) => .ok (.leaf l nx, rest, s2)
+        else .error (.nopattern l.id c.kind)
+      | .cls _ _ => .error (.nopattern l.id c.kind)
+
+/-- The algorithm before the fix "fparser1 duplicated the statement that terminates DO loops
+    sharing a label" (kept for the legacy witness in `Props/One.lean`): the shared terminal
+    line was put back AND added to the inner block. -/
+def fillLegacy : Nat → Ctx → List Line → Except Err (Forest × List Line × Bool)
   | 0, _, _ => .error .fuel
   | _+1, _, [] => .ok (.nil, [], false)
   | f+1, c, l :: ls =>
@@ -186,12 +232,12 @@ def fill : Nat → Ctx → List Line → Except Err (Forest × List Line × Bool
       match l.body with
       | .opn k name el =>
         if allowedOpen c.kind k then
-          match fill f (childCtx c k name el) ls' with
+          match fillLegacy f (childCtx c k name el) ls' with
           | .error e => .error e
           | .ok (kids, rest, s1) =>
             if h then .ok (.blk l kids .nil, rest, sh || s1)
             else
-              match fill f c rest with
+              match fillLegacy f c rest with
               | .error e => .error e
               | .ok (nx, rest', s2) => .ok (.blk l kids nx, rest', sh || s1 || s2)
         else .error (.nopattern l.id c.kind)
@@ -199,7 +245,7 @@ def fill : Nat → Ctx → List Line → Except Err (Forest × List Line × Bool
         if allowedIf c.kind then
           if h then .ok (.if1 l .nil, ls', sh)
           else
-            match fill f c ls' with
+            match fillLegacy f c ls' with
             | .error e => .error e
             | .ok (nx, rest, s2) => .ok (.if1 l nx, rest, sh || s2)
         else .error (.nopattern l.id c.kind)
@@ -207,7 +253,7 @@ def fill : Nat → Ctx → List Line → Except Err (Forest × List Line × Bool
         if allowedSimple c.kind cat then
           if h then .ok (.leaf l .nil, ls', sh)
           else
-            match fill f c ls' with
+            match fillLegacy f c ls' with
             | .error e => .error e
             | .ok (nx, rest, s2) => .ok (.leaf l nx, rest, sh || s2)
         else .error (.nopattern l.id c.kind)
@@ -220,6 +266,11 @@ def fuelFor (ls : List Line) : Nat := (ls.length + 1) * (ls.length + 2)
 /-- `BeginSource(…).fill(end_flag=True)` over the whole source -/
 def nest1 (ls : List Line) : Except Err (Forest × Bool) :=
   match fill (fuelFor ls) topCtx ls with
+  | .error e => .error e
+  | .ok (t, _, s) => .ok (t, s)
+
+def nest1Legacy (ls : List Line) : Except Err (Forest × Bool) :=
+  match fillLegacy (fuelFor ls) topCtx ls with
   | .error e => .error e
   | .ok (t, _, s) => .ok (t, s)
 
